@@ -222,43 +222,54 @@ Section Raises.
   Qed.
 End Raises.
 
-(* ------------------------------------------------------------------ instances that hold in the
-   pinned tree and after the planned repairs (the YAML / XML / HTML handlers are not touched) *)
+(* ------------------------------------------------------------------ unconditional theorems *)
 
+(* outside the classes of the open findings (HandlersSpec.known_gap) every tabulated loader exception
+   of every text format is covered: a finite table, decided by computation, lifted to all exceptions *)
+Definition partial_table_ok : bool :=
+  forallb (fun ft => forallb (fun c => class_ok ft c || known_gap ft c) (raises_table ft)) text_types.
+
+Lemma partial_table : partial_table_ok = true.
+Proof. vm_compute. reflexivity. Qed.
+
+Theorem C20_partial : forall ft e path pos, In ft text_types -> In (e_class e) (raises_table ft) ->
+  known_gap ft (e_class e) = false -> C20_for ft e path pos.
+Proof.
+  intros ft e path pos Hft Hin Hgap. apply C20_class.
+  pose proof partial_table as H. unfold partial_table_ok in H. rewrite forallb_forall in H.
+  specialize (H ft Hft). rewrite forallb_forall in H. specialize (H _ Hin).
+  rewrite Hgap, orb_false_r in H. exact H.
+Qed.
+
+Lemma for_reported : forall ft e path pos, C20_for ft e path pos ->
+  reported path (main_on_error pos (handler ft path e)) = true.
+Proof. intros ft e path pos (m & st & err & A). apply A. Qed.
+
+(* the YAML handler covers everything its loader raises, on the pinned tree and after the repairs *)
 Example yaml_total : handler_total raises_table "yaml" = true.
-Proof. vm_compute. reflexivity. Qed.
-Example xml_total : handler_total raises_table "xml" = true.
-Proof. vm_compute. reflexivity. Qed.
-Example html_total : handler_total raises_table "html" = true.
 Proof. vm_compute. reflexivity. Qed.
 
 Theorem C20_yaml : C20_statement raises_table "yaml".
 Proof. apply C20_ft. exact yaml_total. Qed.
-Theorem C20_xml : C20_statement raises_table "xml".
-Proof. apply C20_ft. exact xml_total. Qed.
-Theorem C20_html : C20_statement raises_table "html".
-Proof. apply C20_ft. exact html_total. Qed.
-
-Lemma statement_reported : forall raises ft, C20_statement raises ft ->
-  forall e path pos, In (e_class e) (raises ft) ->
-  reported path (main_on_error pos (handler ft path e)) = true.
-Proof. intros raises ft H e path pos Hin. destruct (H e path pos Hin) as (m & st & err & A). apply A. Qed.
 
 Lemma yaml_reported : forall e path pos, In (e_class e) (raises_table "yaml") ->
   reported path (main_on_error pos (handler "yaml" path e)) = true.
-Proof. exact (statement_reported _ _ C20_yaml). Qed.
-Lemma xml_reported : forall e path pos, In (e_class e) (raises_table "xml") ->
-  reported path (main_on_error pos (handler "xml" path e)) = true.
-Proof. exact (statement_reported _ _ C20_xml). Qed.
-Lemma html_reported : forall e path pos, In (e_class e) (raises_table "html") ->
-  reported path (main_on_error pos (handler "html" path e)) = true.
-Proof. exact (statement_reported _ _ C20_html). Qed.
+Proof. intros e path pos H. apply for_reported. now apply C20_yaml. Qed.
 
-(* the hypotheses are satisfiable by a non-trivial value: a scanner error in the second file *)
+(* the hypotheses are satisfiable by non-trivial values: a scanner error in the second YAML file, and
+   a JSON syntax error (outside the open classes) in the first *)
 Example C20_witness :
   let e := {| e_class := "yaml.scanner.ScannerError"; e_str := "mapping values are not allowed here";
               e_repr := "ScannerError()"; e_attrs := [] |} in
   In (e_class e) (raises_table "yaml") /\
   class_ok "yaml" (e_class e) = true /\
   reported "/tmp/dir/b.yaml" (main_on_error Second (handler "yaml" "/tmp/dir/b.yaml" e)) = true.
+Proof. vm_compute. repeat split; tauto. Qed.
+
+Example C20_partial_witness :
+  let e := {| e_class := "json.decoder.JSONDecodeError"; e_str := ""; e_repr := "";
+              e_attrs := [("msg", ("Expecting value", "'Expecting value'")); ("lineno", ("1", "1"));
+                          ("colno", ("1", "1")); ("pos", ("0", "0"))] |} in
+  In "json" text_types /\ In (e_class e) (raises_table "json") /\ known_gap "json" (e_class e) = false /\
+  reported "a.json" (main_on_error First (handler "json" "a.json" e)) = true.
 Proof. vm_compute. repeat split; tauto. Qed.
